@@ -14,7 +14,9 @@ CHECKS = {
                 "on the real writer with gated recording hash doubles that read their block late, and by TLC searching a placement of the "
                 "unlogged protocol steps that explains the logged call/return brackets. Part 2: TLC enumerates write-size schedules over "
                 "{0,1,B-1,B,B+1,2B,3B+7} x reader EOF style x consumer buffer x content and (lenA,lenB) pairs over {0,1,2,7,8,9, 2^k-1, "
-                "2^k, 2^k+1 (k<=20)} x content plus all byte-string pairs of length <=3 over {00,01,80,FF}; the driver runs "
+                "2^k, 2^k+1 (k<=20)} x content, second operands of q*2^30+d zero bytes (q in {2,4,5,8,12}, d in {-1,0,1,5}: around 2^31, 2^32, "
+                "5 GiB, 2^33, 3*2^32; reference by streaming that many zeros through the stdlib CRC) plus all byte-string pairs of "
+                "length <=3 over {00,01,80,FF}; the driver runs "
                 "CalculateChecksumsStreaming with a reader returning exactly the scheduled sizes, the hash writer directly, and the three "
                 "CombineCrc functions against one-shot stdlib hashing, and TLC validates executed schedule, block decomposition, all value "
                 "flags and the coverage of every class. Model checking of the protocol + conformance on enumerated inputs.",
@@ -150,9 +152,10 @@ def run(ctx):
     stream = [c for c in allcases if c["kind"] == "stream"]
     combine = [c for c in allcases if c["kind"] == "combine"]
     tiny = [c for c in allcases if c["kind"] == "tiny"]
-    if not stream or not combine or not tiny:
+    big = [dict(c, eval64=(not ctx.quick()) or c["q"] <= 5) for c in allcases if c["kind"] == "bigcombine"]
+    if not stream or not combine or not tiny or not big:
         raise vlib.Infra("case generation incomplete")
-    enumerated = {"stream": len(stream), "combine": len(combine), "tiny": len(tiny)}
+    enumerated = {"stream": len(stream), "combine": len(combine), "tiny": len(tiny), "bigcombine": len(big)}
     if ctx.quick():
         st = _stratify(rnd, stream, [lambda c: [("size", s) for s in set(c["sizes"])] + [("eof", c["eof"]), ("cons", c["consumer"]),
                                                                                        ("content", c["content"]),
@@ -167,7 +170,7 @@ def run(ctx):
         st = stream
         di = [dict(c, kind="direct") for c in stream if c["eof"] == "separate" and c["consumer"] == "exact"]
         co, ti = combine, tiny
-    cases = [dict(c) for c in st + di + co + ti]
+    cases = [dict(c) for c in st + di + co + ti + big]
     for i, c in enumerate(cases):
         c["id"] = i + 1
     vlib.write_ndjson(ctx.path("cases.ndjson"), cases)
@@ -222,13 +225,13 @@ def run(ctx):
         raise vlib.Infra("input classes never exercised: %s" % json.dumps(cov[-1]["missing"])[:600])
     ctx.extra["coverage_classes"] = {"required": cov[-1]["required"], "missing": 0}
     ctx.extra["enumerated_by_tlc"] = enumerated
-    ctx.extra["executed"] = {k: sum(1 for c in cases if c["kind"] == k) for k in ("stream", "direct", "combine", "tiny")}
+    ctx.extra["executed"] = {k: sum(1 for c in cases if c["kind"] == k) for k in ("stream", "direct", "combine", "tiny", "bigcombine")}
     ctx.extra["protocol_schedules_replayed"] = nsched
     ctx.extra["exhaustive"] = (not ctx.quick())
     ctx.evaluations = len(trace) + ctx.events
     ctx.extra["distinct_nontrivial"] = (sum(1 for c in cases if c["kind"] in ("stream", "direct") and sum(c["sizes"]) > 262144) +
                                         sum(1 for c in cases if c["kind"] == "combine" and c["lena"] > 0 and c["lenb"] > 0))
-    for k in ("stream", "direct", "combine", "tiny"):
+    for k in ("stream", "direct", "combine", "tiny", "bigcombine"):
         ctx.sample(next(r for r in trace if r["kind"] == k))
     if scheds:
         ctx.sample({"protocol_schedule": scheds[-1]})
@@ -251,7 +254,8 @@ def run(ctx):
         "bit-level correctness of the digests and of the GF(2) CRC combine is established on the enumerated inputs only",
         "value oracle = one-shot crypto/md5, crypto/sha1, crypto/sha256, hash/crc32 (IEEE, Castagnoli) and hash/crc64 with "
         "MakeTable(0x9a6c9329ac4bc9b5) over the concatenated bytes (the property's own definition); the Go standard library is trusted",
-        "write sizes {0,1,B-1,B,B+1,2B,3B+7} with B=262144, <=3 (quick) / <=4 (thorough) chunks, total <= 4B+8; combine lengths <= 2^20+1",
+        "write sizes {0,1,B-1,B,B+1,2B,3B+7} with B=262144, <=3 (quick) / <=4 (thorough) chunks, total <= 4B+8; combine lengths <= 2^20+1 with arbitrary content and 2^31-1 .. 3*2^32+5 with a second operand of zero "
+        "bytes (the combine sees the second operand only through its CRC and its length); quick streams CRC64 references up to 5 GiB only",
         "the gated replay forces the order of the workers' hash steps; the dispatcher runs freely between them (a settle pause makes it "
         "advance as far as the protocol allows; no verdict depends on the pause)",
     ]
